@@ -179,8 +179,8 @@ def run(chk, repo, tier):
                     return xa[1] if xa is not None and xa[0] == 'val' else x
                 tgt = unwrap(tgt)
                 items = [unwrap(i) for i in (tgt.items if isinstance(tgt, Tup) else [tgt])]
-                if any(isinstance(i, Const) and getattr(i.value, 'key', None) == SPEC for i in items):
-                    return True
+                if items and all(isinstance(i, Const) and getattr(i.value, 'key', None) == SPEC for i in items):
+                    return True         # (a test against Spectrum alone: a tuple that also admits numbers says nothing)
         return False
     for p in rets:
         if other_is_spectrum(p) and not p.calls('radiometry._interp_common'):
